@@ -25,7 +25,7 @@ RULE = (
     "at the first and exit only after the last instruction, ordered successors = fall-through then jump target, none after a return, from_bytecode does not "
     "raise). Dynamic leg: generated functions run under opcode tracing with decision tapes; every observed instruction-to-instruction transition must be "
     "sequential inside a block or an edge of the library's graph (validates the oracle's own no-fall-through table against the interpreter). "
-    "Non-trivial = the function has >= 1 conditional jump. Distinct = hash of (interpreter, function label / source)."
+    "Further clauses and legs: the instructions enumerated through the blocks' own get_instructions() are exactly the interpreter's, each once; a second build (ByteFlow.from_bytecode again, also after the first result was restructured in place; FlowInfo.build_basicblocks twice) gives the same fresh graph; functions that were executed before (specialised in place), with and without debug logging; functions with a jump over >= 65536 code units; starred for-targets. Non-trivial = the function has >= 1 conditional jump. Distinct = hash of (interpreter, function label / source)."
 )
 ASSUME = [
     "dis.get_instructions / opcode.hasjrel|hasjabs of the running interpreter are the ground truth for jump instructions and targets",
